@@ -174,7 +174,13 @@ func verifyFunctionAliased(l *Loaded, specs *Specs, ct *Contract, localAlias map
 				rep.Obls = w.obls
 				return
 			}
-			panic(r)
+			if os.Getenv("GOAVC_PANIC") != "" {
+				panic(r)
+			}
+			// a contract that no longer fits the code it is attached to (e.g. a name now bound to a value of another
+			// type) can trip the generator itself: the function is undecided, never a crash of the check
+			rep.Unsupported = fmt.Sprintf("the contract does not fit the function body any more (generator error: %v)", r)
+			rep.Obls = w.obls
 		}
 	}()
 	sp := l.SPkgs[ct.Pkg]
